@@ -390,7 +390,7 @@ def main():
     os.makedirs(os.path.join(ROOT, "evidence"), exist_ok=True)
     os.makedirs(os.path.join(ROOT, "replays", pid), exist_ok=True)
     evpath = os.path.join(ROOT, "evidence", pid + ".json")
-    if REPO != "/repo":
+    if REPO != "/repo" or a.replay:
         # runs against a scratch copy of the repository (seeded changes, agents' private worktrees) never touch the
         # evidence of the registered checks
         os.makedirs(os.path.join(ROOT, ".work", "evidence_alt"), exist_ok=True)
